@@ -327,6 +327,7 @@ AttemptEnum(reg, ptr, m, p, d) ==
      ELSE IF CHECKNAMES /\ HasDupNames(NamesOf(d.vars)) THEN FailA("duplicate-variant", <<>>)
      ELSE IF Cardinality(marks) > 1 THEN FailA("multiple-default", <<>>)
      ELSE IF CHECKEMPTYENUM /\ d.vars = <<>> THEN FailA("empty-enum", <<>>)
+     ELSE IF CHECKNEGADDR /\ IsSome(d.singleton) /\ d.singleton < 0 THEN FailA("conv-attr", <<>>)
      ELSE IF d.defaultable /\ marks = {} THEN FailA("defaultable-without-default", <<>>)
      ELSE IF ~d.defaultable /\ marks # {} THEN FailA("default-without-defaultable", <<>>)
      ELSE IF counterOverflow THEN FailA("discriminant-overflow", <<>>)
